@@ -217,6 +217,68 @@ Definition run_prio2 (args : list Z) : list Z :=
   | _ => [-99]
   end.
 
+(* ---- family 9: v2 simplified discipline = Prio2 + HandlersQuantity handler goroutines (range Output; Handle; Release).
+   Handle blocks until the driver lets it return, so: a handler that is not inside Handle takes an item as soon as there is one
+   (auto-take), and "let the k-th running Handle return" is Release of that item's priority.
+   [divider; H; fuel; 2n; (priority buffered)*n; 3m; (code arg settle)*m]   codes: 1 put, 2 close, 4 let go
+   -> [0; per op: running total k started-items(sorted ascending)..; terminated; errcode] *)
+Fixpoint autotake (base : Divider) (fuel : nat) (n : nat) (hq : nat) (sm : psim) (acc : list (N * N)) : psim * list (N * N) :=
+  match n with
+  | O => (sm, acc)
+  | S n' =>
+      if andb (Nat.ltb (length (ps_held sm)) hq) (match outq (ps_st sm) with [] => false | _ => true end) then
+        let '(sm1, (tp, tx)) := apply_op base fuel sm 3 0 true in autotake base fuel n' hq sm1 ((tx, tp) :: acc)
+      else (sm, acc)
+  end.
+(* running Handle calls as (item, priority), ascending by item: "let the k-th go" is by item order on both sides *)
+Fixpoint insert_xp (x : N * N) (l : list (N * N)) : list (N * N) :=
+  match l with [] => [x] | y :: r => if N.leb (fst x) (fst y) then x :: l else y :: insert_xp x r end.
+Fixpoint index_of_prio (p : N) (l : list N) (i : nat) : option nat :=
+  match l with [] => None | q :: r => if N.eqb p q then Some i else index_of_prio p r (S i) end.
+Fixpoint run_simple_ops (base : Divider) (fuel : nat) (hq : nat) (sm : psim) (running : list (N * N)) (total : nat) (ops : list (Z * Z * Z)) : list Z :=
+  match ops with
+  | [] => match pcs (ps_st sm) with Done None => [1; 0] | Done (Some _) => [1; 1] | _ => [0; -1] end
+  | (code, arg, _) :: r =>
+      let '(sm1, running1) :=
+        if code =? 4 then
+          match running with
+          | [] => (sm, running)
+          | _ =>
+              let i := Z.to_nat (arg mod Z.of_nat (length running)) in
+              let xp := nth i running (0%N, 0%N) in
+              let rest := firstn i running ++ skipn (S i) running in
+              match index_of_prio (snd xp) (ps_held sm) 0 with
+              | Some j => (fst (apply_op base fuel sm 4 (Z.of_nat j) true), rest)
+              | None => (sm, rest)
+              end
+          end
+        else if code =? 3 then (sm, running)
+        else (fst (apply_op base fuel sm code arg true), running) in
+      let '(sm2, got) := autotake base fuel (S (S fuel)) hq sm1 [] in
+      let total2 := (total + length got)%nat in
+      let running2 := fold_right insert_xp running1 got in
+      [Z.of_nat (length running2); Z.of_nat total2; Z.of_nat (length got)] ++ ns_to_zs (map fst (fold_right insert_xp [] got)) ++
+      run_simple_ops base fuel hq sm2 running2 total2 r
+  end.
+Definition run_simple2 (args : list Z) : list Z :=
+  match args with
+  | kind :: h :: fuel :: r =>
+      let '(pb, r1) := take_list r in
+      let '(ops, _) := take_list r1 in
+      let cfgs := pairs pb in
+      let ps := map (fun x => Z.to_N (fst x)) cfgs in
+      let isbuf := fun p : N => existsb (fun x => andb (N.eqb (Z.to_N (fst x)) p) (negb (snd x =? 0))) cfgs in
+      let base := divider_of kind in
+      match new_v2 (fun _ => base) ps (Z.to_N h) isbuf with
+      | inr e => map Z.opp (run_new_code base ps (Z.to_N h))
+      | inl s0 =>
+          let s1 := sched_run (fun _ => base) (Z.to_nat fuel) true None s0 in
+          let '(sm0, got0) := autotake base (Z.to_nat fuel) (S (S (Z.to_nat fuel))) (Z.to_nat h) (mkPsim s1 [] 1 None) [] in
+          0 :: run_simple_ops base (Z.to_nat fuel) (Z.to_nat h) sm0 (fold_right insert_xp [] got0) (length got0) (triples ops)
+      end
+  | _ => [-99]
+  end.
+
 (* ---- family 8: v1 priority driver script (see Prio1Sim.v)
    [divider; H; fuel; ocap; fixed; 2n; (priority channel)*n; 4m; (code a b settle)*m]
    -> [0; per op: taken_p taken_x len(output) pending_cmds done k (dividend len ps..)*k ...; done; errcode]
@@ -276,5 +338,6 @@ Definition run (args : list Z) : list Z :=
   | 6 :: rest => run_limit rest
   | 7 :: rest => run_prio2 rest
   | 8 :: rest => run_prio1 rest
+  | 9 :: rest => run_simple2 rest
   | _ => [-999]
   end.
